@@ -388,6 +388,9 @@ func (c *Ctx) Lockset(pkgs ...string) *lockInfo {
 }
 
 func (c *Ctx) allFuncs() map[*ssa.Function]bool {
+	if c.view != "" {
+		return c.allFuncsView()
+	}
 	if c.funcsAll == nil {
 		c.funcsAll = map[*ssa.Function]bool{}
 		var add func(f *ssa.Function)
